@@ -95,6 +95,12 @@ SiblingJoin == [BaseQ EXCEPT !.from = [k |-> "join", type |-> "inner", kw |-> ""
                                       on |-> CmpE("=", ColP(<<"x", "a">>), ColP(<<"y", "c">>))]]
 SiblingUnion == [k |-> "union", all |-> TRUE, limit |-> -1, offset |-> -1,
                  l |-> [BaseQ EXCEPT !.from = Derived(WithQ("c", "t", "a"), "x")], r |-> [BaseQ EXCEPT !.from = Derived(WithQ("d", "u", "c"), "x")]]
+\* nothing but a star and an ORDER BY: a pure renaming of u - except for the order (c is different in every row of u)
+StarOrdered == [SelQ(<<Star>>, Table(<<"u">>, ""), None) EXCEPT !.order = <<[key |-> <<"c">>, asc |-> FALSE]>>]
+XC == ColP(<<"x", "c">>)
+Renamed == {SelQ(<<Star>>, Derived(StarOrdered, "x"), None), SelQ(<<I(XC)>>, Derived(StarOrdered, "x"), CmpE(">", XC, LN(0))),
+            [SelQ(<<I(XC)>>, Derived(StarOrdered, "x"), None) EXCEPT !.limit = 1],
+            WithC(StarOrdered, SelQ(<<Star>>, C, None)), [WithC(StarOrdered, SelQ(<<I(Col("c"))>>, C, None)) EXCEPT !.limit = 1]}
 NestedWith == [SelQ(<<I(A), I(G)>>, D, None) EXCEPT !.with = <<[name |-> "d", q |-> SelQ(<<I(A), I(G)>>, T, CmpE(">", A, LN(0)))]>>]
 UnionSideWith == [k |-> "union", all |-> TRUE, limit |-> -1, offset |-> -1, l |-> WithQ("c", "t", "a"), r |-> WithQ("d", "u", "c")]
 \* a CTE read twice: first through SELECT * ... ORDER BY (which must not reorder what the second read sees)
@@ -116,6 +122,7 @@ Cases ==
   \cup {[fam |-> "sibling", q |-> SiblingJoin], [fam |-> "sibling", q |-> SiblingUnion], [fam |-> "twice", q |-> OrderedThenFirst]}
   \* a CTE whose body has a WITH of its own, read twice (the memo must land where the second reference looks);
   \* a UNION whose sides carry their own WITH (there is no WITH in front of the UNION to replace them)
+  \cup {[fam |-> "derived", q |-> r] : r \in Renamed}
   \cup {[fam |-> "twice", q |-> Twice(NestedWith)], [fam |-> "twice", q |-> TwiceAliased(NestedWith)], [fam |-> "sibling", q |-> UnionSideWith],
         [fam |-> "sibling", q |-> [UnionSideWith EXCEPT !.all = FALSE]]}
 
